@@ -41,6 +41,7 @@ func checkC03(p *Prog, r *Result, tier string) {
 		"USE a sorted slice is consumed front to back (range over it or a prefix, or an index loop from 0 upwards); " +
 		"HP heap.Init dominates every heap.Pop and no direct Push/Pop method call bypasses container/heap once the heap is initialised; " +
 		"UPD between heap.Pop and heap.Push the popped node is charged for the placement exactly as the model says (AUTO: Count+1, Capacity-1; GLOBAL: Usage+=Rate, Capacity-1) and the plan entry of that node is incremented. " +
+		"KEYW the ordering keys (Usage, Rate, Capacity, Count of strategy.Info) are written nowhere in package strategy except by the placement updates of UPD: the comparators see the values the caller supplied; DISP the strategy names map to the documented plan functions and Deploy hands its candidate slice unchanged to the selected plan; SRC the candidate list is assembled field by field from the capacity answer and the deploy status of the same node. " +
 		"This decides that the order each strategy consults is the documented order and that it is consulted consistently; it does not compute placements."
 	r.NotCovered = "the numeric balancing relation of the final plan (C01/C02 are not applicable); NaN keys; sort stability among equal keys"
 	r.Assumptions = []string{"A5 no NaN in Usage/Rate", "sort.Slice, sort.Search and container/heap behave as documented"}
@@ -50,6 +51,10 @@ func checkC03(p *Prog, r *Result, tier string) {
 	r.min("USE", 3)
 	r.min("HP", 2)
 	r.min("UPD", 2)
+	r.min("KEYW", 1)
+	r.min("DISP", 2)
+	r.min("SRC", 1)
+	c03KeysAndDispatch(p, r)
 
 	// ---- controls: the evaluator must reject a non-asymmetric comparator and accept its repaired form
 	bad := parseCmp(`func(i, j int) bool { if s[i].A < s[j].A { return true }; return s[i].B > s[j].B }`).analyse()
@@ -585,4 +590,202 @@ func c03PlacementUpdate(p *Prog, fn *FuncNode, pops []*ast.CallExpr, want []stri
 		}
 	}
 	return ""
+}
+
+var c03Dispatch = map[string]string{"Auto": "CommunismPlan", "Fill": "FillPlan", "Each": "AveragePlan", "Global": "GlobalPlan", "Drained": "DrainedPlan"}
+
+func isStrategyInfo(t types.Type) bool {
+	if t == nil {
+		return false
+	}
+	if pt, ok := t.(*types.Pointer); ok {
+		t = pt.Elem()
+	}
+	nt, ok := t.(*types.Named)
+	return ok && nt.Obj().Name() == "Info" && nt.Obj().Pkg() != nil && relPath(nt.Obj().Pkg().Path()) == "strategy"
+}
+
+func c03KeysAndDispatch(p *Prog, r *Result) {
+	keyField := map[string]bool{"Usage": true, "Rate": true, "Capacity": true, "Count": true}
+	// ---- KEYW
+	var bad []string
+	nAllowed := 0
+	for _, fn := range p.sortedFuncs("strategy") {
+		top := topOf(fn)
+		_, isPlanWithModel := c03Updates[top.Name]
+		fn.inspectBody(func(n ast.Node) bool {
+			var lhs []ast.Expr
+			switch s := n.(type) {
+			case *ast.AssignStmt:
+				lhs = s.Lhs
+			case *ast.IncDecStmt:
+				lhs = []ast.Expr{s.X}
+			}
+			for _, l := range lhs {
+				sel, ok := unparen(l).(*ast.SelectorExpr)
+				if !ok || !keyField[sel.Sel.Name] || !isStrategyInfo(fn.typeOf(sel.X)) {
+					continue
+				}
+				// allowed: update of a local (the popped copy) in a heap plan with a placement model (checked by UPD)
+				if _, isLocal := unparen(sel.X).(*ast.Ident); isLocal && isPlanWithModel {
+					nAllowed++
+					continue
+				}
+				bad = append(bad, fmt.Sprintf("%s written in %s at %s", exprStr(l), fn.Name, p.pos(n)))
+			}
+			return true
+		})
+	}
+	r.check(len(bad) == 0, "KEYW", "strategy / ordering keys are not rewritten before they are compared", "", fmt.Sprintf("%d writes, all placement updates of popped copies", nAllowed),
+		strings.Join(bad, "; ")+": the comparator then orders by values other than the node's capacity/count/usage (e.g. a clamp makes different capacities tie), so the plan does not follow the documented order")
+
+	// ---- DISP: Plans literal
+	pk := p.ByPath["strategy"]
+	found := false
+	if pk != nil {
+		for _, f := range pk.Syntax {
+			ast.Inspect(f, func(n ast.Node) bool {
+				vs, ok := n.(*ast.ValueSpec)
+				if !ok || len(vs.Names) != 1 || vs.Names[0].Name != "Plans" || len(vs.Values) != 1 {
+					return true
+				}
+				lit, ok := vs.Values[0].(*ast.CompositeLit)
+				if !ok {
+					return true
+				}
+				found = true
+				got := map[string]string{}
+				for _, el := range lit.Elts {
+					if kv, ok := el.(*ast.KeyValueExpr); ok {
+						got[exprStr(kv.Key)] = exprStr(kv.Value)
+					}
+				}
+				why := ""
+				for k, v := range c03Dispatch {
+					if got[k] != v {
+						why = fmt.Sprintf("strategy %s is served by %q, documented plan is %s", k, got[k], v)
+					}
+				}
+				if len(got) != len(c03Dispatch) {
+					why = fmt.Sprintf("%d strategies registered, %d documented", len(got), len(c03Dispatch))
+				}
+				r.check2(why, "DISP", "strategy.Plans / names map to the documented plan functions", p.pos(vs), "AUTO→CommunismPlan, FILL→FillPlan, EACH→AveragePlan, GLOBAL→GlobalPlan, DRAINED→DrainedPlan")
+				return false
+			})
+		}
+	}
+	if !found {
+		r.undecided("DISP", "strategy.Plans", "", "dispatch table literal not found")
+	}
+	// Deploy passes its infos parameter to the function looked up in Plans under its strategy parameter
+	if D := p.Fn("strategy.Deploy"); D == nil {
+		r.undecided("DISP", "strategy.Deploy", "", "not found")
+	} else {
+		var infos, name types.Object
+		for i := 0; ; i++ {
+			o := D.paramObj(i)
+			if o == nil {
+				break
+			}
+			if sl, ok := o.Type().Underlying().(*types.Slice); ok && isStrategyInfo(sl.Elem()) {
+				infos = o
+			}
+			if b, ok := o.Type().Underlying().(*types.Basic); ok && b.Kind() == types.String {
+				name = o
+			}
+		}
+		why := "Deploy does not call the looked-up plan with its candidate slice"
+		var fv types.Object
+		D.inspectBody(func(n ast.Node) bool {
+			if as, ok := n.(*ast.AssignStmt); ok && len(as.Rhs) == 1 {
+				if base, idx := indexBaseObj(D, as.Rhs[0]); base != nil && base.Name() == "Plans" && D.objOf(idx) == name {
+					fv = D.objOf(as.Lhs[0])
+				}
+			}
+			return true
+		})
+		D.inspectBody(func(n ast.Node) bool {
+			if c, ok := n.(*ast.CallExpr); ok && fv != nil && D.objOf(c.Fun) == fv && len(c.Args) == 5 {
+				if D.objOf(c.Args[1]) == infos {
+					why = ""
+				} else {
+					why = "the plan is called with `" + exprStr(c.Args[1]) + "`, not with the candidates Deploy was given"
+				}
+			}
+			return true
+		})
+		// infos is not reassigned / element-assigned in Deploy
+		D.inspectBody(func(n ast.Node) bool {
+			if as, ok := n.(*ast.AssignStmt); ok {
+				for _, l := range as.Lhs {
+					if D.objOf(l) == infos {
+						why = "the candidate slice is reassigned in Deploy"
+					}
+					if base, _ := indexBaseObj(D, l); base == infos && infos != nil {
+						why = "an element of the candidate slice is overwritten in Deploy"
+					}
+				}
+			}
+			return true
+		})
+		r.check2(why, "DISP", "strategy.Deploy / the selected plan receives the caller's candidates unchanged", p.pos(D.Decl), "Plans[strategy](ctx, strategyInfos, …)")
+	}
+
+	// ---- SRC: assembly of the candidate list
+	G := p.Fn("cluster/calcium.(*Calcium).doGetDeployStrategy")
+	if G == nil {
+		r.undecided("SRC", "cluster/calcium.(*Calcium).doGetDeployStrategy", "", "not found")
+		return
+	}
+	why := "no strategy.Info literal built in a range over the capacity answer"
+	var at ast.Node = G.Decl
+	G.inspectBody(func(n ast.Node) bool {
+		rs, ok := n.(*ast.RangeStmt)
+		if !ok || rs.Key == nil || rs.Value == nil {
+			return true
+		}
+		node, info := G.objOf(rs.Key), G.objOf(rs.Value)
+		inspectNoLit(rs.Body, func(x ast.Node) bool {
+			lit, ok := x.(*ast.CompositeLit)
+			if !ok || !isStrategyInfo(G.typeOf(lit)) {
+				return true
+			}
+			at = lit
+			why = ""
+			got := map[string]ast.Expr{}
+			for _, el := range lit.Elts {
+				if kv, ok := el.(*ast.KeyValueExpr); ok {
+					got[exprStr(kv.Key)] = kv.Value
+				}
+			}
+			for _, f := range []string{"Usage", "Rate", "Capacity"} {
+				sel, ok := unparen(got[f]).(*ast.SelectorExpr)
+				if got[f] == nil || !ok || G.objOf(sel.X) != info || sel.Sel.Name != f {
+					why = fmt.Sprintf("Info.%s is `%s`, not the %s of this node's capacity answer", f, exprStr(got[f]), f)
+				}
+			}
+			if got["Nodename"] == nil || G.objOf(got["Nodename"]) != node {
+				why = "Info.Nodename is not the node the capacity answer is for"
+			}
+			if base, idx := indexBaseObj(G, got["Count"]); got["Count"] == nil || base == nil || G.objOf(idx) != node {
+				why = "Info.Count is `" + exprStr(got["Count"]) + "`, not the deploy status of this node"
+			} else {
+				fromStatus := false
+				G.inspectBody(func(y ast.Node) bool {
+					if as, ok := y.(*ast.AssignStmt); ok && len(as.Rhs) == 1 && len(as.Lhs) >= 1 && G.objOf(as.Lhs[0]) == base {
+						if c, ok := unparen(as.Rhs[0]).(*ast.CallExpr); ok && G.Callee(c) != nil && objName(G.Callee(c)) == "store.Store.GetDeployStatus" {
+							fromStatus = true
+						}
+					}
+					return true
+				})
+				if !fromStatus {
+					why = "Info.Count does not come from the store's deploy status"
+				}
+			}
+			return true
+		})
+		return true
+	})
+	r.check2(why, "SRC", G.Name+" / candidates carry each node's own capacity answer and deploy count", p.pos(at), "Info{Nodename: node, Usage/Rate/Capacity from the node's answer, Count: deployStatus[node]}")
 }
